@@ -29,12 +29,40 @@ struct Pre {
     const std::function<void()>* burst{nullptr};
     const std::function<void()>* burst2{nullptr};
     int fired{0};
+    // writer mode: a burst may only run while the outer operation holds no node lock and no root lock
+    bool writer_mode{false};
+    int held{0};
+    bool pending{false};
+    uint64_t nodes0{0}; // node allocations when the outer call started / when the last burst ended: once the outer call has
+                        // created a node (split, new layer, new root) it may hold locks the hook never saw being taken
+                        // (a split sibling is born locked), so it is no longer preempted
+    std::vector<uint64_t>* eligible{nullptr}; // positions (access counts) at which no lock was held (recorded in the undisturbed run)
 };
 thread_local Pre* t_pre = nullptr; // NOLINT
 
 bool pre_hook(yakushima::verif::point p, const void* /*obj*/) {
     Pre* s = t_pre;
-    if (s == nullptr || !s->armed || s->nested || p != yakushima::verif::point::ATOMIC) { return false; }
+    if (s == nullptr || !s->armed || s->nested) { return false; }
+    if (s->writer_mode) {
+        using yakushima::verif::point;
+        if (p == point::LOCK_ACQ || p == point::ROOT_ACQ) { ++s->held; }
+        if (p == point::LOCK_REL || p == point::ROOT_REL) { --s->held; }
+        if (p != point::ATOMIC) { return false; }
+        ++s->count;
+        bool lock_free = s->held == 0 && alloc::counters().node_allocs == s->nodes0;
+        if (lock_free && s->eligible != nullptr) { s->eligible->push_back(s->count); }
+        if (s->count == s->fire_at) { s->pending = true; }
+        if (s->pending && lock_free && s->burst != nullptr) {
+            s->pending = false;
+            s->nested = true;
+            (*s->burst)();
+            s->nested = false;
+            s->nodes0 = alloc::counters().node_allocs;
+            ++s->fired;
+        }
+        return false;
+    }
+    if (p != yakushima::verif::point::ATOMIC) { return false; }
     ++s->count;
     if (s->count == s->fire_at && s->burst != nullptr) {
         s->nested = true;
@@ -620,6 +648,369 @@ int run_preempt(const Args& a) {
     rep.count("executions", executions);
     rep.count("executions_whose_result_differs_from_the_undisturbed_run", changed_results);
     rep.count("executions_where_the_reader_retried", retried);
+    yk::fin();
+    drain_alloc_problems(rep);
+    if (executions < 50) { rep.inconclusive("fewer than 50 preempted executions"); }
+    return rep.finish();
+}
+
+// ---------------------------------------------------------------------------
+// Writer variant: ONE put / unique-put / remove is preempted at an access of
+// its optimistic (lock-free) part - descent, slot lookup, the moment just
+// before it takes the node lock, the gaps between hand-over-hand locks - by a
+// burst of complete writes of another session next to its key. Oracles:
+//   C01  the statuses of all operations and the final content equal a
+//        sequential execution in which the outer operation takes effect at
+//        some position of the burst;
+//   C08  walker on the final tree;
+//   C12  (inserting puts only) version conservation: for every border that
+//        existed before, insert-counter delta == number of puts (outer and
+//        nested) that reported it as modified, split-counter delta == number
+//        of those reports naming a created node.
+int run_preempt_writer(const Args& a) {
+    uint64_t seed = a.num("seed", 1);
+    uint64_t cases = a.num("cases", 300);
+    std::string oracle = a.str("oracle", "linearizable,structure");
+    bool want_lin = oracle.find("linearizable") != std::string::npos;
+    bool want_struct = oracle.find("structure") != std::string::npos;
+    bool want_ni = oracle.find("nodeinfo") != std::string::npos;
+    uint64_t max_points = a.num("points", 40);
+    Report rep(a.str("prop", "C01"), "preempt_writer", seed);
+    rep.set_rule("preemption explorer, writer variant: per case a small tree and ONE outer operation (put / unique put / remove of a present or absent key; first, middle, last entry of a node, nodes of different fill, sub-layers); it is run undisturbed "
+                 "to record at which of its shared accesses it holds no lock, then re-run on an identically rebuilt tree once per such access k: before that access the hook runs a burst of complete writes of another session next to the key "
+                 "(the same key inserted / removed / re-inserted, 1..16 adjacent inserts that split the node, removes that empty it, mixes). Oracles [" + oracle + "]: statuses of all operations and the final content equal a sequential execution with the "
+                 "outer operation at some position of the burst; walker; for inserting puts the version counters of every pre-existing border equal the number of reports naming it. distinct_nontrivial = executions by (outer op, burst kind, "
+                 "relative position of k, position at which the outer operation took effect)");
+    yk::init();
+    yakushima::verif::set_hook(&pre_hook);
+    Pre pre;
+    pre.writer_mode = true;
+    t_pre = &pre;
+    Rng r(seed);
+    std::string storage = "pw";
+    std::atomic<uint64_t> next_id{1};
+    Session oses; // the outer writer's session
+    Session wses; // the nested writers' session
+    uint64_t executions = 0;
+    const std::size_t VLEN = 24;
+    struct BOp {
+        int kind; // 0 unique insert, 1 upsert, 2 remove
+        std::string key;
+        uint64_t id;
+        status got{status::OK};
+        yk::inserted_node_info ini{};
+    };
+    for (uint64_t cs = 0; cs < cases && rep.violations() < 12; ++cs) {
+        int ukind = static_cast<int>(r.below(3));
+        std::size_t n = r.chance(1, 6) ? r.range(150, 300) : r.range(6, 70);
+        std::string pfx = ukind == 0 ? "" : (ukind == 1 ? "LAYER001" : "PREFIX8B");
+        std::vector<std::string> uni;
+        for (std::size_t i = 0; i < n * 4; ++i) {
+            char b[16];
+            snprintf(b, sizeof b, "%05zu", i);
+            uni.push_back(pfx + (ukind == 0 ? "k" : "") + b);
+        }
+        if (ukind == 2) { uni.push_back(pfx); }
+        std::sort(uni.begin(), uni.end());
+        std::vector<std::pair<std::string, uint64_t>> initial;
+        {
+            std::vector<std::string> ini;
+            for (std::size_t i = 0; i < uni.size(); ++i) {
+                if (i % 4 == 0) { ini.push_back(uni[i]); }
+            }
+            for (int d = 0; d < 2; ++d) {
+                if (r.chance(1, 2)) {
+                    std::size_t at = r.below(uni.size());
+                    std::size_t m = r.range(4, 14);
+                    for (std::size_t j = at; j < uni.size() && j < at + m; ++j) { ini.push_back(uni[j]); }
+                }
+            }
+            std::sort(ini.begin(), ini.end());
+            ini.erase(std::unique(ini.begin(), ini.end()), ini.end());
+            if (r.chance(1, 3)) { std::reverse(ini.begin(), ini.end()); }
+            for (auto& k : ini) { initial.emplace_back(k, next_id.fetch_add(1)); }
+        }
+        auto build = [&](std::map<std::string, uint64_t>& st) {
+            yk::create_storage(storage);
+            st.clear();
+            for (auto& [k, id] : initial) {
+                yput(wses.tok, storage, k, make_value(id, k, VLEN));
+                st[k] = id;
+            }
+        };
+        oses.reenter();
+        wses.reenter();
+        std::map<std::string, uint64_t> state0;
+        build(state0);
+        // the outer operation
+        std::size_t ui = r.below(uni.size());
+        std::string okey = uni[ui];
+        int okind = want_ni ? 0 : static_cast<int>(r.below(3)); // 0 unique insert, 1 upsert, 2 remove
+        if (want_ni && state0.count(okey) != 0U) {
+            // an inserting put: pick an absent key
+            for (std::size_t t = 0; t < uni.size() && state0.count(okey) != 0U; ++t) { okey = uni[(ui + t) % uni.size()]; }
+        }
+        uint64_t oid = next_id.fetch_add(1);
+        // the burst (next to the key; the key itself is a likely target)
+        std::vector<BOp> burst;
+        int bkind = static_cast<int>(r.below(want_ni ? 3 : 7));
+        {
+            std::map<std::string, uint64_t> st = state0;
+            std::size_t anchor = std::min(uni.size() - 1, ui + r.below(3)) - std::min<std::size_t>(ui, r.below(3));
+            static const std::size_t ms[] = {1, 2, 8, 16};
+            std::size_t m = ms[r.below(4)];
+            auto near_keys = [&](bool want_present, std::size_t count) {
+                std::vector<std::string> out;
+                bool up = r.chance(1, 2);
+                for (long i = static_cast<long>(anchor); i >= 0 && i < static_cast<long>(uni.size()) && out.size() < count; i += up ? 1 : -1) {
+                    if ((st.count(uni[static_cast<std::size_t>(i)]) != 0U) == want_present) { out.push_back(uni[static_cast<std::size_t>(i)]); }
+                }
+                return out;
+            };
+            auto add = [&](int kind, const std::string& k) {
+                BOp op{kind, k, kind == 2 ? 0 : next_id.fetch_add(1)};
+                burst.push_back(op);
+                if (kind == 2) {
+                    st.erase(k);
+                } else if (kind == 1 || st.count(k) == 0U) {
+                    st[k] = op.id;
+                }
+            };
+            switch (bkind) {
+                case 0: // adjacent inserts (split the node the outer op is about to lock)
+                    for (auto& k : near_keys(false, m)) { add(0, k); }
+                    break;
+                case 1: // the very same key by a unique insert (+ neighbours)
+                    add(0, okey);
+                    for (auto& k : near_keys(false, m / 2)) { add(0, k); }
+                    break;
+                case 2: // upsert of the same key and of neighbours
+                    add(1, okey);
+                    for (auto& k : near_keys(true, m / 2)) { add(1, k); }
+                    break;
+                case 3: // removes that empty the node
+                    for (auto& k : near_keys(true, m)) { add(2, k); }
+                    break;
+                case 4: // remove the key, re-insert it (slot and node reuse)
+                    add(2, okey);
+                    add(0, okey);
+                    break;
+                case 5: // insert the key, remove it again
+                    add(0, okey);
+                    add(2, okey);
+                    for (auto& k : near_keys(false, m / 2)) { add(0, k); }
+                    break;
+                default: // mix
+                    for (auto& k : near_keys(true, m / 2 + 1)) { add(2, k); }
+                    for (auto& k : near_keys(false, m / 2 + 1)) { add(0, k); }
+                    add(1, okey);
+                    break;
+            }
+        }
+        if (burst.empty()) {
+            yk::delete_storage(storage);
+            oses.leave();
+            wses.leave();
+            continue;
+        }
+        auto run_bop = [&](BOp& op) {
+            std::string v = op.kind == 2 ? std::string() : make_value(op.id, op.key, VLEN);
+            op.ini = yk::inserted_node_info{};
+            if (op.kind == 2) {
+                op.got = yk::remove(wses.tok, storage, op.key);
+            } else {
+                op.got = yk::put<char>(wses.tok, storage, op.key, v.data(), v.size(), static_cast<char**>(nullptr), static_cast<yk::value_align_type>(8), op.kind == 0, &op.ini);
+            }
+        };
+        std::function<void()> burst_fn = [&] {
+            for (auto& op : burst) { run_bop(op); }
+        };
+        status ogot = status::OK;
+        yk::inserted_node_info oini{};
+        auto run_outer = [&]() {
+            pre.count = 0;
+            pre.fired = 0;
+            pre.held = 0;
+            pre.pending = false;
+            pre.nodes0 = alloc::counters().node_allocs;
+            std::string v = make_value(oid, okey, VLEN);
+            oini = yk::inserted_node_info{};
+            pre.armed = true;
+            if (okind == 2) {
+                ogot = yk::remove(oses.tok, storage, okey);
+            } else {
+                ogot = yk::put<char>(oses.tok, storage, okey, v.data(), v.size(), static_cast<char**>(nullptr), static_cast<yk::value_align_type>(8), okind == 0, &oini);
+            }
+            pre.armed = false;
+        };
+        // undisturbed run: where is the operation lock-free?
+        std::vector<uint64_t> eligible;
+        pre.eligible = &eligible;
+        pre.burst = nullptr;
+        pre.fire_at = 0;
+        run_outer();
+        pre.eligible = nullptr;
+        g_progress.fetch_add(1, std::memory_order_relaxed);
+        yk::delete_storage(storage);
+        if (eligible.empty()) {
+            oses.leave();
+            wses.leave();
+            continue;
+        }
+        std::vector<uint64_t> points;
+        if (eligible.size() <= max_points) {
+            points = eligible;
+        } else {
+            for (std::size_t i = 0; i < 6; ++i) { points.push_back(eligible[i]); }
+            for (std::size_t i = eligible.size() - 10; i < eligible.size(); ++i) { points.push_back(eligible[i]); }
+            while (points.size() < max_points) { points.push_back(eligible[r.below(eligible.size())]); }
+            std::sort(points.begin(), points.end());
+            points.erase(std::unique(points.begin(), points.end()), points.end());
+        }
+        rep.count("cases");
+        rep.maxc("max_lock_free_accesses_in_one_writer_call", eligible.size());
+        for (uint64_t kstar : points) {
+            if (rep.violations() >= 12) { break; }
+            std::map<std::string, uint64_t> st_now;
+            build(st_now);
+            yk::tree_instance* ti = nullptr;
+            yk::find_storage(storage, &ti);
+            std::map<yk::border_node*, uint64_t> before_versions;
+            if (want_ni) {
+                Walker w0(false);
+                before_versions = w0.walk(ti).border_versions;
+            }
+            pre.burst = &burst_fn;
+            pre.fire_at = kstar;
+            run_outer();
+            ++executions;
+            g_progress.fetch_add(1, std::memory_order_relaxed);
+            rep.eval();
+            bool fired = pre.fired >= 1;
+            if (!fired) { rep.count("executions_where_the_access_was_not_reached"); }
+            auto describe = [&]() {
+                JObj d;
+                static const char* kn[] = {"unique-put", "put", "remove"};
+                d.num("case", cs).num("universe", static_cast<uint64_t>(ukind)).str("outer_op", kn[okind]).str("key", okey).boolean("key_present_before", state0.count(okey) != 0U).str("outer_status", st(ogot));
+                d.num("preempted_at_access", kstar).num("lock_free_accesses", eligible.size()).num("burst_kind", static_cast<uint64_t>(bkind)).num("burst_ops", burst.size()).boolean("burst_ran", fired);
+                return d;
+            };
+            // final content as the API shows it
+            std::map<std::string, uint64_t> final_content;
+            std::string content_problem;
+            {
+                std::vector<ScanTuple> tl;
+                yk::scan<char>(storage, "", scan_endpoint::INF, "", scan_endpoint::INF, tl, nullptr, 0, false);
+                for (auto& t : tl) {
+                    uint64_t vid = 0;
+                    ValCheck vc = check_value(std::get<1>(t), std::get<2>(t), std::get<0>(t), vid);
+                    if (vc != ValCheck::OK && content_problem.empty()) { content_problem = std::string("value ") + valcheck_name(vc) + " for key " + std::get<0>(t); }
+                    if (!final_content.emplace(std::get<0>(t), vid).second && content_problem.empty()) { content_problem = "key " + std::get<0>(t) + " listed twice"; }
+                }
+            }
+            if (!content_problem.empty()) { rep.violation("preempt:writer:final-content-invalid", content_problem, describe().done()); }
+            int took_effect_at = -1;
+            if (want_lin && content_problem.empty()) {
+                // sequential executions: outer op at position j of the burst (j = 0 .. size); without a burst: alone
+                std::size_t positions = fired ? burst.size() + 1 : 1;
+                for (std::size_t j = 0; j < positions && took_effect_at < 0; ++j) {
+                    std::map<std::string, uint64_t> m = state0;
+                    bool ok = true;
+                    auto apply = [&](int kind, const std::string& k, uint64_t id, status got) {
+                        bool present = m.count(k) != 0U;
+                        status want;
+                        if (kind == 2) {
+                            want = present ? status::OK : status::OK_NOT_FOUND;
+                            m.erase(k);
+                        } else if (kind == 0) {
+                            want = present ? status::WARN_UNIQUE_RESTRICTION : status::OK;
+                            if (!present) { m[k] = id; }
+                        } else {
+                            want = status::OK;
+                            m[k] = id;
+                        }
+                        if (want != got) { ok = false; }
+                    };
+                    for (std::size_t i = 0; i <= (fired ? burst.size() : 0); ++i) {
+                        if (i == j) { apply(okind, okey, oid, ogot); }
+                        if (fired && i < burst.size()) { apply(burst[i].kind, burst[i].key, burst[i].id, burst[i].got); }
+                    }
+                    if (ok && m == final_content) { took_effect_at = static_cast<int>(j); }
+                }
+                if (took_effect_at < 0) {
+                    std::vector<std::string> bs;
+                    for (auto& op : burst) { bs.push_back(JObj().num("kind", static_cast<uint64_t>(op.kind)).str("key", op.key).str("status", st(op.got)).done()); }
+                    rep.violation("preempt:writer:not-linearizable", "statuses and final content match no sequential execution in which the preempted operation takes effect at some position of the burst",
+                                  describe().num("keys_in_final_content", final_content.size()).raw("burst", jarr(bs)).done());
+                }
+            }
+            if (want_struct || want_ni) {
+                Walker w(alloc::mode() == alloc::Mode::FULL);
+                WalkResult wr = w.walk(ti);
+                if (want_struct) {
+                    for (auto& [ek, ed] : wr.errors) { rep.violation("walker:" + ek, "structure after a writer was preempted in its lock-free part by a burst of writes", ed); }
+                    if (wr.entries.size() != final_content.size()) { rep.violation("preempt:writer:walker-and-scan-disagree", "number of entries reachable by the walker differs from the full scan", describe().num("walker", wr.entries.size()).num("scan", final_content.size()).done()); }
+                }
+                if (want_ni) {
+                    std::map<yk::node_version64*, std::pair<uint64_t, uint64_t>> reports;
+                    auto note = [&](status got, const yk::inserted_node_info& ini) {
+                        if (got != status::OK || ini.modified_nvp == nullptr) { return; }
+                        auto& e = reports[ini.modified_nvp];
+                        ++e.first;
+                        if (ini.created_nvp != nullptr) { ++e.second; }
+                    };
+                    if (okind != 2) { note(ogot, oini); }
+                    bool has_remove = false;
+                    if (fired) {
+                        for (auto& op : burst) {
+                            if (op.kind == 2) {
+                                has_remove = true;
+                            } else {
+                                note(op.got, op.ini);
+                            }
+                        }
+                    }
+                    if (!has_remove) {
+                        for (auto& [b, vw0] : before_versions) {
+                            auto it = wr.border_versions.find(b);
+                            if (it == wr.border_versions.end()) { continue; }
+                            yk::node_version64_body b0, b1; // NOLINT
+                            memcpy(&b0, &vw0, sizeof vw0);
+                            memcpy(&b1, &it->second, sizeof vw0);
+                            uint64_t d_ins = (b1.get_vinsert_delete() - b0.get_vinsert_delete()) & ((1U << 29) - 1);
+                            uint64_t d_spl = (b1.get_vsplit() - b0.get_vsplit()) & ((1U << 29) - 1);
+                            auto rit = reports.find(b->get_version_ptr());
+                            uint64_t n_rep = rit == reports.end() ? 0 : rit->second.first;
+                            uint64_t n_spl = rit == reports.end() ? 0 : rit->second.second;
+                            if (d_ins != n_rep || d_spl != n_spl) {
+                                rep.violation(d_ins > n_rep || d_spl > n_spl ? "preempt:writer:version-changed-without-report" : "preempt:writer:report-without-version-change",
+                                              "a pre-existing border's version counters do not equal the number of puts (preempted and nested) that reported it",
+                                              describe().num("insert_counter_delta", d_ins).num("reports_as_modified", n_rep).num("split_counter_delta", d_spl).num("reports_with_created_node", n_spl).done());
+                            }
+                        }
+                    }
+                }
+            }
+            if (fired) {
+                uint64_t q = (std::lower_bound(eligible.begin(), eligible.end(), kstar) - eligible.begin()) * 8 / (eligible.size() + 1);
+                rep.distinct(mix64(static_cast<uint64_t>(okind), mix64(static_cast<uint64_t>(bkind), mix64(q, static_cast<uint64_t>(took_effect_at + 2)))));
+            }
+            if (rep.get("samples_taken") < 2 && fired) {
+                rep.count("samples_taken");
+                rep.sample(describe().num("took_effect_at_position", static_cast<uint64_t>(took_effect_at < 0 ? 999 : took_effect_at)).done());
+            }
+            yk::delete_storage(storage);
+            if (executions % 16 == 0) {
+                oses.reenter();
+                wses.reenter();
+            }
+        }
+        oses.leave();
+        wses.leave();
+    }
+    t_pre = nullptr;
+    ctl::install();
+    rep.count("executions", executions);
     yk::fin();
     drain_alloc_problems(rep);
     if (executions < 50) { rep.inconclusive("fewer than 50 preempted executions"); }
